@@ -336,7 +336,7 @@ func checkC07(c c07Case) (*ev.Failure, c07Stats) {
 
 	var subsets []map[int]bool
 	n := len(u.names)
-	if c.Exhaust && n <= 12 {
+	if c.Exhaust && n <= 9 {
 		st.exhaustive = true
 		for mask := 0; mask < 1<<n; mask++ {
 			keep := map[int]bool{}
@@ -441,7 +441,7 @@ var _ = bytes.Equal
 
 func TestC07(t *testing.T) {
 	r := ev.Get("C07", "Subsets")
-	r.Rule = "rapid: generated program + request with <= ~4 segments; file universe = files left by a complete run on an empty cache plus the partial stores harvested after each segment job (before the squasher deletes them) plus truncated debris under dstore's temporary name; each case tries 3..8 subsets (crash points = prefixes of the write order, single evictions, random subsets; thorough: every subset when the universe has <= 12 files); oracle: the request completes, its stream and final stores satisfy the C01 oracle against the sequential execution, every file left behind that the clean run also leaves decodes to equivalent content (stores typed, outputs, index bitmaps); non-trivial = subset neither empty nor the whole universe; counters report subsets run"
+	r.Rule = "rapid: generated program + request with <= ~4 segments; file universe = files left by a complete run on an empty cache plus the partial stores harvested after each segment job (before the squasher deletes them) plus truncated debris under dstore's temporary name; each case tries 3..8 subsets (crash points = prefixes of the write order, single evictions, random subsets; thorough: every subset when the universe has <= 9 files); oracle: the request completes, its stream and final stores satisfy the C01 oracle against the sequential execution, every file left behind that the clean run also leaves decodes to equivalent content (stores typed, outputs, index bitmaps); non-trivial = subset neither empty nor the whole universe; counters report subsets run"
 	rapid.Check(t, func(rt *rapid.T) {
 		c := genC07(rt)
 		r.Begin(c)
